@@ -726,6 +726,12 @@ func runC05(c *core.Ctx) {
 	ruleCompositeShapes(c)
 	c.Doc("C03.kinds", "reflection codec used by the generated proxies: every scalar kind/type has a case in encoder and decoder calling the primitive of its own type — rule shared with C03", 40)
 	ruleKindSwitches(c)
+	// the generated code checked into the repository: what each site states in a signature
+	// string is what it does with the bytes
+	c.Doc("C05.stated-types", "bus.NewParams / bus.NewResponse hand the reflection codec Go values of the types the signature next to them describes", 100)
+	ruleStatedTypes(c, "C05.stated-types")
+	c.Doc("C05.stated-shapes", "a stub method decodes the parameters and encodes the result its meta-object advertises for the action it is dispatched for", 30)
+	ruleStatedShapes(c, "C05.stated-shapes")
 }
 
 func stripFn(ts []etok) []etok {
